@@ -136,12 +136,20 @@ func BlockEndCallbackRule(w *World, r *Result, rule string) {
 				return !noCb[b] || hasCb[b]
 			}
 			var bad []string
+			hdrFlag := false
+			if c, neg := condOf(hdr); c != nil && !neg {
+				if ph, ok := c.(*ssa.Phi); ok && ph.Block() == hdr {
+					hdrFlag = true
+				} else if flagCell(c) != nil {
+					hdrFlag = true
+				}
+			}
 			for b := range body {
 				for si, s := range b.Succs {
 					if body[s] {
 						continue
 					}
-					if b == hdr {
+					if b == hdr && hdrFlag {
 						continue // judged below
 					}
 					if errorExit(b, si, s) || passedBefore(b) {
@@ -204,13 +212,6 @@ func BlockEndCallbackRule(w *World, r *Result, rule string) {
 							if flagReachesHeader(b, instrIndex(st), hdr, body, hasCb, cell) {
 								bad = append(bad, fmt.Sprintf("the loop flag assigned at %s reaches the loop condition, possibly false, without the callback", w.Pos(st.Pos())))
 							}
-						}
-					}
-				} else {
-					// a loop condition that is not a carried flag: its exit must have passed the callback
-					for si, s := range hdr.Succs {
-						if !body[s] && !errorExit(hdr, si, s) {
-							bad = append(bad, "the loop condition itself")
 						}
 					}
 				}
@@ -290,7 +291,7 @@ func errorExit(b *ssa.BasicBlock, si int, s *ssa.BasicBlock) bool {
 			}
 		}
 	}
-	if ret, ok := s.Instrs[len(s.Instrs)-1].(*ssa.Return); ok && len(s.Instrs) <= 2 && isErrorReturn(ret) {
+	if ret, ok := s.Instrs[len(s.Instrs)-1].(*ssa.Return); ok && isErrorReturn(ret) {
 		return true
 	}
 	return false
